@@ -228,6 +228,7 @@ class SeamFile:
         self._fd = fd
         self._text = text
         self._buf = bytearray()
+        self._failed = None       # errno of a write error (sticky, see below)
         self.closed = False
         if text:
             # PyYAML (like any writer) looks at this to choose str vs bytes
@@ -263,8 +264,14 @@ class SeamFile:
         return len(data)
 
     def _physical(self, count):
-        chunk = bytes(self._buf[:count])
         seam = self._seam
+        if self._failed is not None and not seam.dead:
+            # a full disk / failing device does not heal within the same
+            # write_safe call: the retry a buffered writer makes at close()
+            # fails the same way and the buffered data is lost.
+            raise OSError(self._failed, _real_os.strerror(self._failed),
+                          self.name)
+        chunk = bytes(self._buf[:count])
         fd = self._fd
         path = self.name
 
@@ -283,7 +290,12 @@ class SeamFile:
         def post():
             seam.set_ctime(path)
 
-        seam.step('write', path, perform, post, partial, nbytes=len(chunk))
+        try:
+            seam.step('write', path, perform, post, partial,
+                      nbytes=len(chunk))
+        except OSError as err:
+            self._failed = err.errno
+            raise
 
     def flush(self):
         if self.closed:
